@@ -20,6 +20,8 @@ type vConnOpts struct {
 	sei       uint32 // session expiry interval (v5); seiSet says whether the property is present
 	seiSet    bool
 	rm        uint16
+	noProblem bool   // Request Problem Information = 0
+	mps       uint32 // Maximum Packet Size (0: property absent)
 }
 
 func vU16b(v uint16) []byte { return []byte{byte(v >> 8), byte(v)} }
@@ -55,6 +57,13 @@ func vConnectBytes(o vConnOpts) []byte {
 		if o.rm > 0 {
 			p = append(p, 33)
 			p = append(p, vU16b(o.rm)...)
+		}
+		if o.noProblem {
+			p = append(p, 23, 0)
+		}
+		if o.mps > 0 {
+			p = append(p, 39)
+			p = append(p, vU32b(o.mps)...)
 		}
 		b = append(b, byte(len(p)))
 		b = append(b, p...)
